@@ -300,6 +300,8 @@ class Compiler:
             return_type=ret_type,
         )
         transformer.macros = self.transformer.macros
+        # The temporaries of the body live in the same namespace as those of every caller and callee.
+        transformer.il_ops_holder.hybrid_tmp_prefix = f"_{name}_"
         body = transformer.transform(ast_body)
         return SubRoutine(name, ret_type, params, body)
 
